@@ -31,3 +31,16 @@ class M2:
 
     def __setstate__(self, s):
         self.a, self.b, self.c, self.d = s
+
+
+from pyiron_workflow import Workflow  # noqa: E402
+from pyiron_workflow.nodes.standard import UserInput  # noqa: E402
+
+
+@Workflow.wrap.as_macro_node("out")
+def Holder3(self, v0=None, v1=None, v2=None):
+    """a composite that is not a root: three value holders; expressions are written among its children"""
+    self.m0 = UserInput(v0)
+    self.m1 = UserInput(v1)
+    self.m2 = UserInput(v2)
+    return self.m0
